@@ -27,7 +27,9 @@ RULE = ("generated func/arith/scf/cf/memref programs (xv.c14_gen: default statem
         "select/cmpi/chains, re-emitted identical subexpressions in nested regions, +0.0/-0.0/NaN constant groups, "
         "memref reads with writers in between, scf.while, cf diamonds, helper and external calls, module-level "
         "straight-line programs; 15 % multi-block cf programs of xv.gencfg: diamonds, triangles, counted loops, "
-        "pass-through blocks, constant conditions, unreachable blocks) x 5 passes x 8 boundary/random inputs; a (program, pass) case is non-trivial if the "
+        "pass-through blocks, constant conditions, unreachable blocks; plus a deterministic exhaustive grid: every ordered "
+        "pair of 22 boundary constants (signed zeros, +-1, max, min subnormal, +-inf, NaN payloads) for each of 8 float "
+        "binary ops and 16 cmpf predicates, f32 and f64, observed through sinks) x 5 passes x 8 boundary/random inputs; a (program, pass) case is non-trivial if the "
         "pass changed the canonical form of the program and >=1 input with defined source behaviour was compared; "
         "distinct by hash of (pass, canonical form of the source program)")
 LEVEL_TEXT = ("Each generated program is run by an independent reference semantics before and after every pass on "
@@ -747,7 +749,11 @@ def plan(tier, seed):
     shards, per = (16, 96) if tier == "quick" else (64, 500)  # worker start-up (imports) costs ~4 CPU-s
     # self-tests only (mutant runs in a scratch worktree): XV_C14_SCALE=0.5 halves the workload of every shard
     per = max(1, int(per * float(os.environ.get("XV_C14_SCALE", "1"))))
-    return [{"kind": "gen", "seed": seed * 100003 + i, "n": per} for i in range(shards)]
+    jobs = [{"kind": "gen", "seed": seed * 100003 + i, "n": per} for i in range(shards)]
+    # deterministic directed part: exhaustive boundary x boundary grid of constant operands for every float binary op
+    # and cmpf predicate, both float types (xv.c14_gen.float_grid_programs); thorough additionally splits by half
+    jobs += [{"kind": "fgrid", "type": t, "part": k, "parts": 2} for t in ("f32", "f64") for k in range(2)]
+    return jobs
 
 
 def gen_case(case_seed):
@@ -793,6 +799,14 @@ def work(job):
         from xv.c14_gen import unjson_row
         inputs = [unjson_row(r) if job["pkind"] == "func" else r for r in job["inputs"]]
         run_case(cx, job["text"], job["pkind"], job["argtypes"], inputs, job["passes"])
+        return cx.res
+    if job["kind"] == "fgrid":
+        from xv.c14_gen import float_grid_programs
+        progs = float_grid_programs(job["type"])
+        for label, text in progs[job["part"]::job["parts"]]:
+            cx.count("float_grid_programs")
+            cx.add_set("float_grid_cells", label.rsplit(":", 1)[0])
+            run_case(cx, text, "func", [], [[]], PASSES, tag="fgrid")
         return cx.res
     for i in range(job["n"]):
         text, kind, argt, inputs, shapes, tag = gen_case(f"{job['seed']}:{i}")
@@ -846,6 +860,12 @@ def finish(agg, tier):
                        f"{rates[pn]['trigger_rate']}")
     if c.get("folds_compared:canonicalize", 0) < (800 if tier == "quick" else 15000):
         inc.append("fold audit saw too few canonicalize folds")
+    if len(agg.sets.get("float_grid_cells", ())) < 48 or c.get("nontrivial_fgrid:canonicalize", 0) < 30 or \
+            c.get("nontrivial_fgrid:constant-fold-interp", 0) < 100:
+        inc.append("the exhaustive float boundary grid (8 binary ops + 16 cmpf predicates x f32/f64) was not fully folded "
+                   f"and compared: cells={len(agg.sets.get('float_grid_cells', ()))} "
+                   f"canonicalize={c.get('nontrivial_fgrid:canonicalize', 0)} "
+                   f"constant-fold-interp={c.get('nontrivial_fgrid:constant-fold-interp', 0)}")
     need_cfg = 40 if tier == "quick" else 800
     if c.get("nontrivial_cfg:canonicalize", 0) < need_cfg:
         inc.append(f"only {c.get('nontrivial_cfg:canonicalize', 0)} multi-block cf programs were changed by canonicalize "
